@@ -55,13 +55,18 @@ type Step struct {
 // Env is the state of the harness: the slots.
 type Env struct {
 	Slots []error // index 0 unused
+	// Steps counts the executed steps.
+	Steps int
 	// HopN counts the hops each slot's value has made since it was built.
 	HopN []int
 	// Info about the last Hop executed.
 	LastHop *wire.HopInfo
 	// Result of the last StackCall.
 	LastStack *p1.Result
-	// Concurrent observers (C18).
+	// Concurrent observers (C18).  Twin, when set, holds values built by the
+	// same steps that nothing has looked at yet: the goroutines share those,
+	// the result of an operation executed alone comes from this environment's.
+	Twin     *Env
 	Conc     *conc.Run
 	LastConc *conc.Result
 	// Result of the last Grpc call.
@@ -71,6 +76,12 @@ type Env struct {
 	// RegMig: the registration panicked.
 	LastRegPanic bool
 }
+
+//go:noinline
+func viaA(f func() error) error { return f() }
+
+//go:noinline
+func viaB(f func() error) error { return f() }
 
 // NewEnv creates an environment with n empty slots.
 func NewEnv(n int) *Env {
@@ -94,14 +105,22 @@ func (env *Env) ExecConc(st *Step) (panicked string) {
 	if other == nil {
 		other = goerrors.New("Zq77x")
 	}
+	shared, sharedOther := e, other
+	if env.Twin != nil {
+		shared = env.Twin.src(st, 0)
+		if o := env.Twin.src(st, 1); o != nil {
+			sharedOther = o
+		}
+	}
 	switch st.Op {
 	case "CBegin":
-		env.Conc.Begin(st.N, st.S[0], e, other)
+		env.Conc.Begin(st.N, st.S[0], e, other, shared, sharedOther)
 		env.LastConc = nil
 	case "CEnd":
 		env.LastConc = env.Conc.End(st.N)
 	case "CStorm":
-		env.LastConc = conc.Storm(st.N, 150*time.Millisecond, e, other)
+		env.Conc.Release()
+		env.LastConc = conc.Storm(st.N, 150*time.Millisecond, e, other, shared, sharedOther)
 	}
 	return ""
 }
@@ -154,6 +173,9 @@ func (env *Env) format(parts []Part) (string, []interface{}) {
 		case "safe":
 			f += "%s"
 			args = append(args, errors.Safe(tok.Str(p.S)))
+		case "xsafe":
+			// an extra Safe() argument without a verb in the format
+			args = append(args, errors.Safe(tok.Str(p.S)))
 		case "err":
 			f += "%v"
 			args = append(args, env.Slots[p.R])
@@ -195,7 +217,14 @@ func (env *Env) Exec(st *Step) (panicked string) {
 	if (st.Op == "Hop" || st.Op == "Copy") && len(st.Src) > 0 {
 		n = env.HopN[st.Src[0]]
 	}
-	env.Slots[st.Dst] = env.build(st)
+	// constructor calls reach the library through two alternating call paths, so
+	// that stacks captured at the same call site differ below it
+	env.Steps++
+	if env.Steps%2 == 0 {
+		env.Slots[st.Dst] = viaA(func() error { return env.build(st) })
+	} else {
+		env.Slots[st.Dst] = viaB(func() error { return env.build(st) })
+	}
 	if st.Op == "Hop" {
 		n++
 	}
@@ -393,6 +422,9 @@ func (env *Env) build(st *Step) error {
 		errs := make([]error, len(st.Src))
 		for i, r := range st.Src {
 			errs[i] = env.Slots[r]
+		}
+		if len(st.A) > 0 {
+			return &utypes.UMultiIs{Msg: s, Tag: at(st.A, 0), Errs: errs}
 		}
 		return &utypes.UMulti{Msg: s, Errs: errs}
 	case "GoWrap2":
